@@ -239,11 +239,11 @@ theorem exists_onehot : ∀ (P : List α) (m : α), m ∈ P →
 
 /-! ## `maxList` -/
 
-theorem foldl_fmax_spec : ∀ (xs : List α) (x : α),
+theorem foldl_fmax_mem_le : ∀ (xs : List α) (x : α),
     (xs.foldl fmax x ∈ x :: xs) ∧ ∀ y ∈ x :: xs, y ≤ xs.foldl fmax x
   | [], x => by simp
   | z :: zs, x => by
-    obtain ⟨h1, h2⟩ := foldl_fmax_spec zs (fmax x z)
+    obtain ⟨h1, h2⟩ := foldl_fmax_mem_le zs (fmax x z)
     simp only [List.foldl_cons]
     rw [fmax_eq_max] at h1 h2 ⊢
     constructor
@@ -265,7 +265,7 @@ theorem maxList_spec (l : List α) (hl : l ≠ []) :
   cases l with
   | nil => exact absurd rfl hl
   | cons x xs =>
-    obtain ⟨h1, h2⟩ := foldl_fmax_spec xs x
+    obtain ⟨h1, h2⟩ := foldl_fmax_mem_le xs x
     exact ⟨_, rfl, h1, h2⟩
 
 /-! ## the frontier: first own nodes below a subtree -/
